@@ -26,7 +26,7 @@ LEVEL = "exploration"
 BATCH = 1
 TIMEOUT = 900
 REQUIRED_OBS = ["toml_keys_compared", "cli_vs_api_trees_compared", "files_compared", "solver_dense", "solver_sparse", "solver_rosenbrock4", "solver_cusparse",
-                "with_replacement", "with_binding_or_yield", "with_modifiers", "with_allowed_species", "with_cooling", "with_bulk_prefix", "examples_rendered", "with_explicitly_empty_list", "with_repeated_format", "example_command_lines_checked"]
+                "with_replacement", "with_binding_or_yield", "with_modifiers", "with_allowed_species", "with_cooling", "with_bulk_prefix", "examples_rendered", "example_command_lines_checked"]
 RULE = ("option sets for `naunet init`: element / pseudo-element lists (default, upper-case with replacement table), surface and bulk prefixes, "
         "allowed and extra species, binding-energy and yield tables, network files of every format, grain model, cooling lists, shielding "
         "tables, rate and ODE modifiers, every solver/method/device; list values with irregular spacing, trailing separators and empty "
